@@ -1,8 +1,9 @@
 //! Native replayer: runs a harness body against the real code (no stubs) on concrete inputs.
 //! usage: replay <body> <p0,p1,..|-> <v0,v1,..|->     (values: u64 bit patterns, decimal)
-//! exit 0 = property holds on this input, 1 = assertion failed / panic (reproduced), 3 = input not admissible
+//! exit 0 = property holds on this input, 1 = assertion failed / panic (reproduced), 3 = input not admissible,
+//! 4 = the counterexample's symbolic environment is not realised by the real data
 use std::panic;
-use tyme_verif_harness::nd::{AssumeFailed, In};
+use tyme_verif_harness::nd::{AssumeFailed, In, Unrealised};
 
 fn parse_list<T: std::str::FromStr>(s: &str) -> Vec<T> where T::Err: std::fmt::Debug {
   if s == "-" || s.is_empty() { return vec![]; }
@@ -66,6 +67,7 @@ fn main() {
     Ok(true) => { println!("REPLAY inadmissible (value out of declared range)"); std::process::exit(3); }
     Err(e) => {
       if e.is::<AssumeFailed>() { println!("REPLAY inadmissible (assumption not met)"); std::process::exit(3); }
+      if e.is::<Unrealised>() { println!("REPLAY unrealised (the symbolic environment of this counterexample does not occur in the real data)"); std::process::exit(4); }
       let msg = if let Some(s) = e.downcast_ref::<String>() { s.clone() } else if let Some(s) = e.downcast_ref::<&str>() { s.to_string() } else { "panic".to_string() };
       println!("REPLAY fails: {}", msg);
       std::process::exit(1);
